@@ -1074,7 +1074,7 @@ class FileStorage(
 
     def _txn_find(self, tid, stop_at_pack):
         pos = self._pos
-        while pos > 39:
+        while pos > 4:  # 4: just the magic, no transaction in front of pos
             self._file.seek(pos - 8)
             pos = pos - u64(self._file.read(8)) - 8
             self._file.seek(pos)
@@ -2130,8 +2130,10 @@ class UndoSearch:
 
     def finished(self):
         """Return True if UndoSearch has found enough records."""
-        # BAW: Why 39 please?  This makes no sense (see also below).
-        return self.i >= self.last or self.pos < 39 or self.stop
+        # At position 4 (just after the magic) there is nothing in front.
+        # (This used to test ``pos < 39``, which skipped a first transaction
+        # without records and with less than 4 bytes of metadata.)
+        return self.i >= self.last or self.pos <= 4 or self.stop
 
     def search(self):
         """Search for another record."""
